@@ -339,7 +339,7 @@ def match_known(known, prop, sig):
 # --------------------------------------------------------------------------------------
 # trace validation (code -> spec)
 # --------------------------------------------------------------------------------------
-def validate_trace(workdir, name, module, log_path, invariants=(), timeout=1800, max_rounds=12, xmx="8g", priority=None):
+def validate_trace(workdir, name, module, log_path, invariants=(), timeout=1800, max_rounds=12, xmx="8g", priority=None, enough=None):
     """Validate an ndjson event log against spec/<module>.tla.  The trace specification is deterministic; TLC
     reports a deadlock at the first event it cannot explain.  That event's case is recorded, its events are
     removed, and validation is repeated so that the REST of the trace is checked too.
@@ -390,6 +390,11 @@ def validate_trace(workdir, name, module, log_path, invariants=(), timeout=1800,
             case = ev.get("case") if ev else None
             rejected.append({"line": line, "event": ev, "case": case, "round": rnd})
             events_ok += line - 1
+            if enough is not None and enough(rejected):
+                # the caller has all the evidence it needs (several rejections that count for the running property):
+                # no point in grinding through a badly broken tree round by round
+                rejected.append({"line": None, "event": None, "case": None, "round": rnd, "note": "stopped early: enough rejections for this property"})
+                return events_ok, rejected, total_states
             # drop every event of that case (or, without case ids, everything up to the next reset) and continue
             nxt = os.path.join(workdir, "%s.round%d.ndjson" % (name, rnd + 1))
             with open(cur) as fi, open(nxt, "w") as fo:
@@ -430,7 +435,7 @@ def validate_trace(workdir, name, module, log_path, invariants=(), timeout=1800,
                     if json.loads(t).get("case") in keep:
                         fo.write(t)
             ok2, rej2, st2 = validate_trace(workdir, name + ".prio", module, red, invariants=invariants, timeout=timeout,
-                                            max_rounds=max_rounds, xmx=xmx, priority=None)
+                                            max_rounds=max_rounds, xmx=xmx, priority=None, enough=enough)
             rejected.extend(r for r in rej2 if r.get("event") is not None)
             total_states += st2
     rejected.append({"line": None, "event": None, "case": None, "round": max_rounds, "note": "more rejections may exist (round limit reached)"})
